@@ -144,6 +144,13 @@ func (m *Machine) f64to32(x *Term) *Term {
 	if r, ok := m.fpMemo[fpKey{"f64to32", x}]; ok {
 		return r
 	}
+	if o, ok := m.fpOrigin[x]; ok {
+		// float32(float64(o)) is o itself, except that a signalling NaN comes back quieted
+		// (float64(NaN32) sets the quiet bit, which survives the narrowing).
+		r := tt.Ite(m.fpIsNaN(o), tt.Bin(OpOr, o, tt.Const(32, 0x00400000)), o)
+		m.fpMemo[fpKey{"f64to32", x}] = r
+		return r
+	}
 	r := tt.Var(32, "f64to32")
 	m.fpMemo[fpKey{"f64to32", x}] = r
 	isnan := m.fpIsNaN(x)
@@ -167,6 +174,7 @@ func (m *Machine) f32to64(x *Term) *Term {
 	}
 	r := tt.Var(64, "f32to64")
 	m.fpMemo[fpKey{"f32to64", x}] = r
+	m.fpOrigin[r] = x
 	isnan := m.fpIsNaN(x)
 	sign := tt.Extract(x, 31, 31)
 	mant := tt.Extract(x, 22, 0)
